@@ -79,7 +79,7 @@ func (c *Ctx) checkPropagation(rule string, fn *ssa.Function, m walk.Matcher, wh
 	}
 	n := 0
 	seen := map[ssa.Instruction]bool{}
-	c.Walk(rule, fn, func(p *walk.Path) {
+	c.WalkShallow(rule, fn, func(p *walk.Path) {
 		if _, ok := p.Exit.(*ssa.Return); !ok {
 			return
 		}
